@@ -537,9 +537,10 @@ SeqTG(s) ==
         t2 == [s.t EXCEPT !.mc = m[2]]
         s2 == [s EXCEPT !.t = t2, !.tc = IF s.tc.on THEN t2 ELSE NoT]
     IN SeqLog(s, s2, "TG", 0, s.t.p, m[1], s.t.inh)
+\* (logged `inh` of TT: t.T is handed a matrix that t assembled ITSELF from its forward map)
 SeqTT(s) ==
     LET hand == IF s.mk = "func" THEN s.t.mc ELSE <<>>
-    IN SeqLog(s, s, "TT", 0, s.t.p, IF hand # <<>> THEN hand ELSE s.t.p, FALSE)
+    IN SeqLog(s, s, "TT", 0, s.t.p, IF hand # <<>> THEN hand ELSE s.t.p, hand # <<>> /\ ~s.t.inh)
 
 InitSeq == c \in { [part |-> "SEQ", mk |-> k[1], fi |-> k[4], d0 |-> k[2], r0 |-> k[3], d |-> k[2], r |-> k[3], mc |-> <<>>,
                     t |-> NoT, tc |-> NoT, hist |-> <<>>] : k \in SeqStart }
